@@ -516,7 +516,7 @@ func init() {
 			"distinct non-trivial = distinct (trie root, block, tampering class) combinations submitted",
 		Cases: func(tier string) int {
 			if tier == "thorough" {
-				return 32000
+				return 20000
 			}
 			return 1280
 		},
